@@ -10,6 +10,11 @@
    Query phase: the positions are drawn.  Afterwards the prover sends, per layer, the opening of the committed rows ("asis") or
    different values ("tampered"), and a remainder: the committed one, one interpolated through the folded values at the queried
    positions ("adaptive"), or anything else ("other").
+   The remainder committed in the commit phase is either the interpolation of the last layer ("honest") or a polynomial within the
+   bound that agrees with the last layer on as many points as it has coefficients - a fraction 1/blowup of the layer, the best a
+   prover can do when the last layer is far from low degree ("partial").  When the queries are drawn, the first folded position may
+   ("first") or may not ("none") fall into that agreement set; that every queried position falls into it is one of the events of
+   negligible probability.
 
    The verifier performs the checks of fri/src/verifier/mod.rs:
      Merkle      every opened row is the committed one
@@ -23,37 +28,40 @@
    from low degree, so the remainder committed in the commit phase (which has few coefficients) disagrees with it at a queried position. *)
 EXTENDS Naturals, Sequences, FiniteSets
 
-CONSTANTS L,              \* number of committed layers
-          CheckRemCommit  \* does the verifier compare the remainder with its commitment?
+CONSTANTS L,               \* number of committed layers
+          CheckRemCommit,  \* does the verifier compare the remainder with its commitment?
+          RemFoldAll       \* does the verifier compare the remainder with the last layer at EVERY queried position (or the first only)?
 
-VARIABLES phase, f0, layers, alphasDrawn, remCommitted, queried, openings, remSent, verdict
-vars == <<phase, f0, layers, alphasDrawn, remCommitted, queried, openings, remSent, verdict>>
+VARIABLES phase, f0, layers, alphasDrawn, remCommitted, remC, hit, queried, openings, remSent, verdict
+vars == <<phase, f0, layers, alphasDrawn, remCommitted, remC, hit, queried, openings, remSent, verdict>>
 
 Init == /\ phase = "commit" /\ f0 \in {"low", "high", "far"} /\ layers = <<>> /\ alphasDrawn = 0 /\ remCommitted = FALSE
-        /\ queried = FALSE /\ openings = <<>> /\ remSent = "none" /\ verdict = "none"
+        /\ remC = "none" /\ hit = "na" /\ queried = FALSE /\ openings = <<>> /\ remSent = "none" /\ verdict = "none"
 
 \* prover commits to the next layer; the challenge for it is drawn right after (one action per critical section of build_layer)
 CommitLayer(kind) == /\ phase = "commit" /\ Len(layers) < L /\ alphasDrawn = Len(layers)
                      /\ layers' = Append(layers, kind)
-                     /\ UNCHANGED <<phase, f0, alphasDrawn, remCommitted, queried, openings, remSent, verdict>>
+                     /\ UNCHANGED <<phase, f0, alphasDrawn, remCommitted, remC, hit, queried, openings, remSent, verdict>>
 DrawAlpha == /\ phase = "commit" /\ alphasDrawn < Len(layers)
              /\ alphasDrawn' = alphasDrawn + 1
-             /\ UNCHANGED <<phase, f0, layers, remCommitted, queried, openings, remSent, verdict>>
-CommitRemainder == /\ phase = "commit" /\ Len(layers) = L /\ alphasDrawn = L /\ ~remCommitted
-                   /\ remCommitted' = TRUE
-                   /\ UNCHANGED <<phase, f0, layers, alphasDrawn, queried, openings, remSent, verdict>>
+             /\ UNCHANGED <<phase, f0, layers, remCommitted, remC, hit, queried, openings, remSent, verdict>>
+CommitRemainder(kind) == /\ phase = "commit" /\ Len(layers) = L /\ alphasDrawn = L /\ ~remCommitted
+                         /\ kind \in {"honest", "partial"}
+                         /\ remCommitted' = TRUE /\ remC' = kind
+                         /\ UNCHANGED <<phase, f0, layers, alphasDrawn, hit, queried, openings, remSent, verdict>>
 DrawQueries == /\ phase = "commit" /\ remCommitted
                /\ phase' = "query" /\ queried' = TRUE
-               /\ UNCHANGED <<f0, layers, alphasDrawn, remCommitted, openings, remSent, verdict>>
+               /\ hit' \in (IF remC = "partial" THEN {"first", "none"} ELSE {"na"})
+               /\ UNCHANGED <<f0, layers, alphasDrawn, remCommitted, remC, openings, remSent, verdict>>
 \* answers are chosen with knowledge of the positions
 SendOpenings(o) == /\ phase = "query" /\ openings = <<>> /\ L > 0
                    /\ o \in [1..L -> {"asis", "tampered"}]
                    /\ openings' = o
-                   /\ UNCHANGED <<phase, f0, layers, alphasDrawn, remCommitted, queried, remSent, verdict>>
+                   /\ UNCHANGED <<phase, f0, layers, alphasDrawn, remCommitted, remC, hit, queried, remSent, verdict>>
 SendRemainder(r) == /\ phase = "query" /\ (L = 0 \/ openings # <<>>) /\ remSent = "none"
                     /\ r \in {"committed", "adaptive", "other"}
                     /\ remSent' = r
-                    /\ UNCHANGED <<phase, f0, layers, alphasDrawn, remCommitted, queried, openings, verdict>>
+                    /\ UNCHANGED <<phase, f0, layers, alphasDrawn, remCommitted, remC, hit, queried, openings, verdict>>
 
 AllFold == \A k \in 1..Len(layers) : layers[k] = "fold"
 \* the individual checks, as facts about the state
@@ -61,18 +69,20 @@ MerkleOK  == \A k \in DOMAIN openings : openings[k] = "asis"
 FoldOK    == AllFold                                   \* a junk layer is caught at a queried position
 \* does the remainder the prover sends agree with the folded last layer at the queried positions?
 RemFoldOK == CASE remSent = "adaptive"  -> TRUE                       \* built to agree there
-               [] remSent = "committed" -> f0 \in {"low", "high"} /\ AllFold   \* committed before the queries: only an honest polynomial run agrees
+               [] remSent = "committed" ->                              \* committed before the queries
+                     IF remC = "honest" THEN f0 \in {"low", "high"} /\ AllFold     \* only an honest polynomial run agrees everywhere
+                     ELSE (~RemFoldAll /\ hit = "first")                           \* partial agreement: some queried position disagrees
                [] remSent = "other"     -> FALSE
 RemCommitOK == remSent = "committed"
 \* the remainder has at most (degree bound + 1) / fold^L coefficients: fails exactly for the honest run of a too-high degree
-RemBoundOK == ~(f0 = "high" /\ remSent = "committed")
+RemBoundOK == ~(f0 = "high" /\ remSent = "committed" /\ remC = "honest")
 Verify == /\ phase = "query" /\ remSent # "none" /\ verdict = "none"
           /\ verdict' = IF MerkleOK /\ FoldOK /\ RemFoldOK /\ RemBoundOK /\ (CheckRemCommit => RemCommitOK) THEN "accept" ELSE "reject"
           /\ phase' = "done"
-          /\ UNCHANGED <<f0, layers, alphasDrawn, remCommitted, queried, openings, remSent>>
+          /\ UNCHANGED <<f0, layers, alphasDrawn, remCommitted, remC, hit, queried, openings, remSent>>
 
 Next == \/ \E kd \in {"fold", "junk"} : CommitLayer(kd)
-        \/ DrawAlpha \/ CommitRemainder \/ DrawQueries
+        \/ DrawAlpha \/ (\E kd \in {"honest", "partial"} : CommitRemainder(kd)) \/ DrawQueries
         \/ \E o \in [1..L -> {"asis", "tampered"}] : SendOpenings(o)
         \/ \E r \in {"committed", "adaptive", "other"} : SendRemainder(r)
         \/ Verify
@@ -81,9 +91,9 @@ Spec == Init /\ [][Next]_vars
 \* ---- properties -------------------------------------------------------------------------------------------------------
 \* soundness: an accepted run started from a low-degree function, every layer was an honest folding, and every value the
 \* verifier consumed was fixed before the positions were drawn
-Sound == verdict = "accept" => (f0 = "low" /\ AllFold /\ MerkleOK /\ remSent = "committed")
+Sound == verdict = "accept" => (f0 = "low" /\ AllFold /\ MerkleOK /\ remSent = "committed" /\ remC = "honest")
 \* completeness: the honest run is accepted
-Complete == (verdict # "none" /\ f0 = "low" /\ AllFold /\ MerkleOK /\ remSent = "committed") => verdict = "accept"
+Complete == (verdict # "none" /\ f0 = "low" /\ AllFold /\ MerkleOK /\ remSent = "committed" /\ remC = "honest") => verdict = "accept"
 \* order: challenges only after the corresponding commitment, queries only after all commitments
 Order == /\ alphasDrawn <= Len(layers) /\ (queried => (Len(layers) = L /\ alphasDrawn = L /\ remCommitted))
 =============================================================================
